@@ -28,6 +28,20 @@ Theorem C17_read_none_is_latest h T : stamps_nondecreasing h -> series_ok h ->
 Proof. exact (read_none_is_latest h T). Qed.
 Print Assumptions C17_read_none_is_latest.
 
+Theorem C17_read_none_first h T : stamps_nondecreasing h -> series_ok h ->
+  Forall (fun v => fst v <= T) h -> bi_read (store_of h) None 0 = spec_first T h.
+Proof. exact (read_none_first h T). Qed.
+Print Assumptions C17_read_none_first.
+
+(* the same when several consecutive versions are handed to ONE bi_merge call (new_data a list):
+   the store reads like the flattened history *)
+Theorem C17_batch_merge_reads gs T : Forall (fun g => g <> []) gs ->
+  stamps_nondecreasing (concat gs) -> series_ok (concat gs) ->
+  bi_read (store_of_groups gs) (Some T) (-1) = spec_read T (concat gs) /\
+  bi_read (store_of_groups gs) (Some T) 0 = spec_first T (concat gs).
+Proof. exact (groups_read_is_latest gs T). Qed.
+Print Assumptions C17_batch_merge_reads.
+
 (* no look-ahead: versions stamped after T cannot change an as-of-T read *)
 Theorem C17_no_lookahead h T : stamps_nondecreasing h -> series_ok h ->
   bi_read (store_of h) (Some T) (-1) = bi_read (store_of (hist_le T h)) (Some T) (-1) /\
